@@ -1,0 +1,30 @@
+//go:build verif
+
+/*
+ * Copyright 2025 CloudWeGo Authors
+ *
+ * Licensed under the Apache License, Version 2.0 (the "License");
+ * you may not use this file except in compliance with the License.
+ * You may obtain a copy of the License at
+ *
+ *     http://www.apache.org/licenses/LICENSE-2.0
+ *
+ * Unless required by applicable law or agreed to in writing, software
+ * distributed under the License is distributed on an "AS IS" BASIS,
+ * WITHOUT WARRANTIES OR CONDITIONS OF ANY KIND, either express or implied.
+ * See the License for the specific language governing permissions and
+ * limitations under the License.
+ */
+
+package compose
+
+import "reflect"
+
+// VerifC15ConvertTo re-exports convertTo (the pre-node converter of field mappings) for the
+// verification harness of property C15: target path (elements joined by VerifC15PathSeparator) -> value.
+func VerifC15ConvertTo(mappings map[string]any, typ reflect.Type) (any, error) {
+	return convertTo(mappings, typ)
+}
+
+// VerifC15PathSeparator is the separator of joined field paths.
+const VerifC15PathSeparator = pathSeparator
